@@ -1,0 +1,218 @@
+// Verification hook (compiled only under `--cfg seed_verif`).
+//
+// `seed --verif-batch <nonce>` reads framed requests on stdin and runs each
+// one through the same pipeline as `run()` + the error arm of `main()`,
+// without touching the ordinary CLI path. Script output goes through the real
+// `print` builtin (`println!`), between two marker lines carrying the nonce.
+//
+// Request:  `<mode> <label-len> <src-len>\n<label bytes><src bytes>`
+//           mode = run | tokens | ast
+// Response: `\x01<nonce> B <n>\n` ...script output...
+//           `\x01<nonce> E <n> <class> <payload-len>\n<payload>\n`
+//           class = ok | err | panic
+
+use std::cell::RefCell;
+use std::collections::BTreeMap;
+use std::env;
+use std::io::BufRead;
+use std::io::Read;
+use std::io::Write;
+use std::panic;
+use std::path::Path;
+use std::sync::Arc;
+use std::sync::Mutex;
+
+use crate::eval;
+use crate::eval::builtins::Builtins;
+use crate::eval::scope::ScopeStack;
+use crate::eval::value;
+use crate::eval::EvaluationContext;
+use crate::eval_err_to_stacktrace;
+use crate::fns;
+use crate::lexer::Lexer;
+use crate::parser::ProgParser;
+use crate::render_parse_error;
+use crate::type_functions;
+use crate::RawExpr;
+
+thread_local! {
+    static LAST_PANIC: RefCell<Option<String>> = RefCell::new(None);
+}
+
+pub fn dispatch() -> bool {
+    let mut args = env::args();
+    args.next();
+    match args.next() {
+        Some(a) if a == "--verif-batch" => {
+            let nonce = args.next().unwrap_or_default();
+            batch(&nonce);
+
+            true
+        },
+        _ => false,
+    }
+}
+
+fn batch(nonce: &str) {
+    panic::set_hook(Box::new(|info| {
+        let loc =
+            match info.location() {
+                Some(l) => format!("{}:{}:{}", l.file(), l.line(), l.column()),
+                None => "?".to_string(),
+            };
+        let payload = info.payload();
+        let msg =
+            if let Some(s) = payload.downcast_ref::<&str>() {
+                (*s).to_string()
+            } else if let Some(s) = payload.downcast_ref::<String>() {
+                s.clone()
+            } else {
+                "<non-string panic payload>".to_string()
+            };
+        LAST_PANIC.with(|p| {
+            *p.borrow_mut() = Some(format!("{loc}\n{msg}"));
+        });
+    }));
+
+    let stdin = std::io::stdin();
+    let mut input = stdin.lock();
+    let mut n: u64 = 0;
+
+    loop {
+        let mut header = String::new();
+        match input.read_line(&mut header) {
+            Ok(0) | Err(_) => return,
+            Ok(_) => {},
+        }
+        let parts: Vec<&str> = header.trim_end().split(' ').collect();
+        if parts.len() != 3 {
+            eprintln!("verif: bad request header {header:?}");
+            std::process::exit(2);
+        }
+        let mode = parts[0].to_string();
+        let label_len: usize = parts[1].parse().unwrap_or(0);
+        let src_len: usize = parts[2].parse().unwrap_or(0);
+
+        let mut buf = vec![0u8; label_len + src_len];
+        if input.read_exact(&mut buf).is_err() {
+            return;
+        }
+        let label = String::from_utf8_lossy(&buf[.. label_len]).to_string();
+        let src =
+            match String::from_utf8(buf[label_len ..].to_vec()) {
+                Ok(s) => s,
+                Err(_) => {
+                    eprintln!("verif: request source is not UTF-8");
+                    std::process::exit(2);
+                },
+            };
+
+        println!("\x01{nonce} B {n}");
+
+        let result = panic::catch_unwind(panic::AssertUnwindSafe(|| {
+            match mode.as_str() {
+                "run" => run_src(&label, &src),
+                "tokens" => dump_tokens(&src),
+                "ast" => dump_ast(&src),
+                _ => Some(format!("unknown mode '{mode}'")),
+            }
+        }));
+
+        let (class, payload) =
+            match result {
+                Ok(None) => ("ok", String::new()),
+                Ok(Some(msg)) => ("err", msg),
+                Err(_) => {
+                    let msg = LAST_PANIC.with(|p| p.borrow_mut().take())
+                        .unwrap_or_else(|| "?\n?".to_string());
+
+                    ("panic", msg)
+                },
+            };
+
+        let out = std::io::stdout();
+        let mut out = out.lock();
+        let _ = writeln!(
+            out,
+            "\x01{nonce} E {n} {class} {}\n{payload}",
+            payload.len(),
+        );
+        let _ = out.flush();
+
+        n += 1;
+    }
+}
+
+// `run_src` mirrors `run()` and the error arm of `main()`; it returns the text
+// that `main()` would have written to stderr after `<path>:`.
+fn run_src(label: &str, src: &str) -> Option<String> {
+    let cur_script_dir = env::current_dir().unwrap_or_default();
+
+    let global_bindings = vec![
+        (
+            RawExpr::Var{name: "print".to_string()},
+            value::new_built_in_func("print".to_string(), fns::print),
+        ),
+    ];
+
+    let mut scopes = ScopeStack::new(vec![]);
+    let lexer = Lexer::new(src);
+    let ast =
+        match ProgParser::new().parse(lexer) {
+            Ok(v) => v,
+            Err(e) => {
+                let ((ln, ch), msg) = render_parse_error(e);
+
+                return Some(format!("{ln}:{ch}: {msg}"));
+            },
+        };
+
+    let result = eval::eval_prog(
+        &EvaluationContext{
+            builtins: &Builtins{
+                std: Arc::new(Mutex::new(BTreeMap::new())),
+                type_functions: type_functions::type_functions(),
+            },
+            cur_script_dir,
+        },
+        &mut scopes,
+        global_bindings,
+        &ast,
+    );
+
+    match result {
+        Ok(()) => None,
+        Err(source) => {
+            let st = eval_err_to_stacktrace(Path::new(label), None, source);
+
+            let mut rendered_stacktrace = String::new();
+            if !st.stacktrace.is_empty() {
+                rendered_stacktrace = format!(
+                    "\nStacktrace:\n  {}",
+                    st.stacktrace.join("\n  "),
+                );
+            }
+
+            Some(format!("{}{}", st.msg, rendered_stacktrace))
+        },
+    }
+}
+
+fn dump_tokens(src: &str) -> Option<String> {
+    for item in Lexer::new(src) {
+        let stop = item.is_err();
+        println!("{item:?}");
+        if stop {
+            break;
+        }
+    }
+
+    None
+}
+
+fn dump_ast(src: &str) -> Option<String> {
+    let lexer = Lexer::new(src);
+    println!("{:?}", ProgParser::new().parse(lexer));
+
+    None
+}
